@@ -43,3 +43,40 @@ Theorem client_absent_fingerprint_names_default : forall v o n f,
 Proof.
   intros v o n f Hd Ha. destruct defaults as [_ [_ [_ [_ [_ [_ [_ Hf]]]]]]]. exact (Hf v o n f Hd Ha).
 Qed.
+
+(* ---- the Version field of a proxy poll does not enter the pool decision ----
+   DecodeProxyPollRequestWithRelayPrefix looks at the version only to accept or refuse the poll (major version 1:
+   "1.0" ... "1.3", a bare "1", "1.10", "1.2.3" ...); everything it returns is a function of the other fields. *)
+
+(* two polls whose fields agree except for the (accepted) version string decode alike *)
+Theorem proxy_poll_version_irrelevant : forall v1 v2 sid ver1 ver2 ty nat n pat,
+  unmarshal poll_req_schema v1 = Some [VStr sid; VStr ver1; VStr ty; VStr nat; VInt n; VPtr pat] ->
+  unmarshal poll_req_schema v2 = Some [VStr sid; VStr ver2; VStr ty; VStr nat; VInt n; VPtr pat] ->
+  major_ok ver1 = true -> major_ok ver2 = true ->
+  decode_proxy_poll v1 = decode_proxy_poll v2.
+Proof.
+  intros v1 v2 sid ver1 ver2 ty nat n pat H1 H2 M1 M2. unfold decode_proxy_poll. rewrite H1, H2, M1, M2. reflexivity.
+Qed.
+
+(* for EVERY accepted version string: the poll is registered with exactly the NAT type it carries (empty = unknown),
+   hence in the pool that NAT type belongs to - kept for the clients compatible with it and for no others *)
+Theorem proxy_poll_nat_for_every_version : forall v sid ver ty nat n pat,
+  unmarshal poll_req_schema v = Some [VStr sid; VStr ver; VStr ty; VStr nat; VInt n; VPtr pat] ->
+  major_ok ver = true -> beq sid [] = false ->
+  match norm_nat nat with
+  | None => decode_proxy_poll v = Err
+  | Some nat' =>
+      exists r, decode_proxy_poll v = Ok r /\ pq_nat r = nat' /\ pq_sid r = sid /\ pq_type r = norm_type ty /\
+                pq_clients r = n /\
+                (forall cn sd pt cl, eligible cn (new_entry sd (natty_of (pq_nat r)) pt cl) = compat cn (natty_of nat'))
+  end.
+Proof.
+  intros v sid ver ty nat n pat H M S. unfold decode_proxy_poll. rewrite H, M, S. cbn [negb].
+  destruct (norm_nat nat) as [nat'|]; [|reflexivity].
+  eexists. split; [reflexivity|]. cbn [pq_nat pq_sid pq_type pq_clients].
+  split; [reflexivity|]. split; [reflexivity|]. split; [reflexivity|]. split; [reflexivity|].
+  intros cn sd pt cl. unfold eligible, new_entry, compat. cbn. destruct cn, (natty_of nat'); reflexivity.
+Qed.
+
+Lemma norm_nat_unrestricted : norm_nat NAT_UNRESTRICTED = Some NAT_UNRESTRICTED.
+Proof. reflexivity. Qed.
